@@ -11,7 +11,7 @@ for every run) no state ever has to be copied.
 """
 import z3
 
-FEAS_TIMEOUT_MS = 3000
+FEAS_TIMEOUT_MS = 1500
 
 
 class PathEnd(Exception):
